@@ -24,20 +24,22 @@ def KeysUnique (ns : Nests) : Prop := (ns.map (·.className)).Nodup
 enclosing class -/
 def Acyclic (ns : Nests) : Prop := ∃ rank : JStr → Nat, ∀ n ∈ ns, rank n.enclClass < rank n.className
 
-/-! ## 1. Transitive naming: the recursion, its fuel, cyclic tables -/
+/-! ## 1. Transitive naming: the recursion, its depth bound, cyclic tables
+The Rust recursions count their depth and fail beyond `number of nests`; `build ns fuel` is that recursion with
+`fuel = number of nests + 1 - depth`, `none` is the error. -/
 
-/-- more fuel never changes a name that was already computed -/
+/-- a larger bound never changes a name that was already computed -/
 theorem build_fuel_mono (ns : Nests) {f f' : Nat} {c r : JStr} (h : build ns f c = some r) (hle : f ≤ f') :
     build ns f' c = some r :=
   build_mono_le ns h hle
 
-/-- on an acyclic table the recursion terminates within `length + 1` steps from every class: the fuel the model uses is
-enough, `none` ("diverge") is never answered -/
+/-- on an acyclic table the depth bound of the code is never hit: from every class the recursion ends within
+`number of nests + 1` calls, no error is reported -/
 theorem build_fuel_enough (ns : Nests) (h : Acyclic ns) (c : JStr) : (build ns (fuelFor ns) c).isSome = true := by
   obtain ⟨rank, hr⟩ := h
   exact build_isSome_of_rank_len ns rank hr c
 
-/-- the executable test used as domain predicate (`mapTable` answers) is exactly acyclicity -/
+/-- the remapper is built without error exactly for the acyclic tables: the bound rejects every cyclic table and nothing else -/
 theorem acyclic_iff_mapTable (ns : Nests) (hu : KeysUnique ns) : Acyclic ns ↔ (mapTable ns).isSome = true := by
   constructor
   · intro h
@@ -50,9 +52,24 @@ def cyclicTable : Nests :=
   [{ kind := .inner, className := jstr "A", enclClass := jstr "B", enclMethod := none, innerName := jstr "X", access := 0 },
    { kind := .inner, className := jstr "B", enclClass := jstr "A", enclMethod := none, innerName := jstr "Y", access := 0 }]
 
-/-- DEFECT witness: on a cyclic table no amount of fuel produces a name — `build_translation` / `remap` recurse forever
-(the Rust process overflows its stack and aborts); nothing in `Nests::read` or `add` rejects such a table -/
-theorem build_cyclic_witness : ∀ fuel : Nat,
+/-- a cyclic table is an error for every operation that builds the name table: nesting and un-nesting mappings (whatever
+the mapping set) and nesting a jar in which the applied nests form the cycle -/
+theorem cyclic_err (ns : Nests) (hu : KeysUnique ns) (hc : ¬ Acyclic ns) :
+    mapTable ns = none ∧ (∀ m, applyNests m ns = .error "e") ∧ (∀ m, undoNests m ns = .error "e") ∧
+    (∀ r jar, allApply jar ns = true → nestJar r jar ns = .error "e") := by
+  have ht : mapTable ns = none := by
+    cases h : mapTable ns with
+    | none => rfl
+    | some t => exact absurd ((acyclic_iff_mapTable ns hu).mpr (by rw [h]; rfl)) hc
+  refine ⟨ht, fun m => applyNests_table_err m ns ht, fun m => undoNests_table_err m ns ht, ?_⟩
+  intro r jar ha
+  apply nestJar_table_err
+  unfold allApply at ha
+  have hk : (filterRun jar ns).kept = ns := by simpa using ha
+  rw [hk, jarTable_eq_mapTable, ht]
+
+/-- no bound is large enough on the table `A in B, B in A` (it is really cyclic) -/
+theorem build_cyclic_none : ∀ fuel : Nat,
     build cyclicTable fuel (jstr "A") = none ∧ build cyclicTable fuel (jstr "B") = none := by
   intro fuel
   induction fuel with
@@ -68,11 +85,20 @@ theorem build_cyclic_witness : ∀ fuel : Nat,
       show (match build cyclicTable f (jstr "A") with | none => none | some a => _) = none
       rw [ih.1]
 
-theorem cyclic_not_acyclic_witness : ¬ Acyclic cyclicTable := by
+theorem cyclicTable_not_acyclic : ¬ Acyclic cyclicTable := by
   intro h
   have := build_fuel_enough cyclicTable h (jstr "A")
-  rw [(build_cyclic_witness (fuelFor cyclicTable)).1] at this
+  rw [(build_cyclic_none (fuelFor cyclicTable)).1] at this
   exact Bool.noConfusion this
+
+/-- REGRESSION (fixed defect 0532d54: these calls used to overflow the stack): the cyclic table `A in B, B in A` is
+answered with an error by every entry point -/
+theorem build_cyclic_regression :
+    mapTable cyclicTable = none ∧ jarTable cyclicTable = none ∧
+    (∀ m, applyNests m cyclicTable = .error "e") ∧ (∀ m, undoNests m cyclicTable = .error "e") ∧
+    (∀ r jar, allApply jar cyclicTable = true → nestJar r jar cyclicTable = .error "e") := by
+  obtain ⟨h1, h2, h3, h4⟩ := cyclic_err cyclicTable (by unfold KeysUnique; decide) cyclicTable_not_acyclic
+  exact ⟨h1, by rw [jarTable_eq_mapTable, h1], h2, h3, h4⟩
 
 /-- `Enclosing$Inner`, transitively: on an acyclic table the mappings-side name of a listed class is the name of its
 enclosing class, `$`, its inner name; every other class keeps its name -/
@@ -91,6 +117,7 @@ def chain3 : Nests :=
 example : mapName chain3 (jstr "c3") = some (jstr "p/Top$In$1$Z") := by decide
 example : mapName chain3 (jstr "p/Top") = some (jstr "p/Top") := by decide
 example : (mapTable chain3).isSome = true := by decide
+example : Acyclic chain3 := (acyclic_iff_mapTable chain3 (by unfold KeysUnique; decide)).mpr (by decide)
 
 /-! ## 2. Jar side and mappings side agree -/
 
@@ -243,9 +270,9 @@ example : noSynthListed exJar chain3 = true := by decide
 
 /-! ## 4. The jar that is produced (without renaming: `remap = false`) -/
 
-/-- nesting without renaming succeeds on every jar that has a class, for every acyclic table.
-PARTIAL: on a cyclic table the naming recursion does not terminate (`build_cyclic_witness`). -/
-theorem nestJar_false_total_partial (jar : Jar) (ns : Nests) (hv : (minVersion (classesOf jar)).isSome = true)
+/-- nesting without renaming succeeds on every jar that has a class, for every acyclic table (a cyclic table of applied
+nests is an error, `cyclic_err`; a jar without classes too) -/
+theorem nestJar_false_total (jar : Jar) (ns : Nests) (hv : (minVersion (classesOf jar)).isSome = true)
     (ha : Acyclic ns) : ∃ out, nestJar false jar ns = .ok out := by
   have hk : Acyclic (filterRun jar ns).kept := by
     obtain ⟨rank, hr⟩ := ha
@@ -305,11 +332,11 @@ theorem innerClass_anonymous (n : Nest) (h : n.kind = .anonymous) :
     innerClassOf n = { inner := n.className, outer := none, name := none, flags := n.access } := by
   simp [innerClassOf, h]
 
-/-- PARTIAL (`remap = false` only; with `remap = true` the entry name is wrong, `created_entry_name_remap_witness`).
+/-- (`remap = false`; with renaming the same classes come first in `remap_names_partial`, under their new names.)
 Missing enclosing classes are created: each synthesised class is an entry `<name>.class` holding an empty public
 class of the jar's lowest class version that extends `java/lang/Object` (with nest attributes if it is itself nested),
 unless a source entry of that very name replaces it -/
-theorem created_enclosing_partial (jar : Jar) (ns : Nests) (out : Jar) (h : nestJar false jar ns = .ok out) (name : JStr)
+theorem created_enclosing (jar : Jar) (ns : Nests) (out : Jar) (h : nestJar false jar ns = .ok out) (name : JStr)
     (hc : name ∈ (filterRun jar ns).created) (hfree : name ++ DOT_CLASS ∉ jar.map Prod.fst) :
     ∃ v, minVersion (classesOf jar) = some v ∧
       AList.lookup (name ++ DOT_CLASS) out = some (.cls (addAttrs (filterRun jar ns).kept (newClass v name))) := by
@@ -349,29 +376,41 @@ theorem class_renamed (this : Nests) (f : JStr → JStr) (c c' : JClass) (h : em
     c'.name = f c.name :=
   emitClass_true_name this f c c' h
 
-/-- PARTIAL (no enclosing class has to be synthesised; otherwise `created_entry_name_remap_witness`): nesting with renaming
-keeps the entries in order; every class entry is renamed with the jar-side class map (`jarName`) and holds the class of
-that name, directories and resources keep their names — provided the new entry names do not collide -/
-theorem remap_names_partial (jar : Jar) (ns : Nests) (out : Jar) (h : nestJar true jar ns = .ok out)
-    (hc : (filterRun jar ns).created = []) :
+/-- nesting with renaming: first the synthesised enclosing classes, each under `<new name>.class` holding the class of that
+name, then the source entries in order, every class entry renamed with the jar-side class map (`jarName`) and holding the
+class of that name, directories and resources under their old names.
+PARTIAL: the expected entry names must be pairwise different — the result is an `IndexMap`, entries whose new names
+coincide replace each other (`remap_names_collision_witness`). -/
+theorem remap_names_partial (jar : Jar) (ns : Nests) (out : Jar) (h : nestJar true jar ns = .ok out) :
     ∃ table, jarTable (filterRun jar ns).kept = some table ∧ (∀ c, jarName jar ns c = some (tableMap table c)) ∧
-      ((jar.map (fun e => (renamedView (tableMap table) e).1)).Nodup →
-        out.map nameView = jar.map (renamedView (tableMap table))) := by
-  obtain ⟨table, h1, h2⟩ := nestJar_true_view jar ns out h hc
+      (((filterRun jar ns).created.map (fun n => (createdView (tableMap table) n).1) ++
+          jar.map (fun e => (renamedView (tableMap table) e).1)).Nodup →
+        out.map nameView = (filterRun jar ns).created.map (createdView (tableMap table)) ++
+          jar.map (renamedView (tableMap table))) := by
+  obtain ⟨table, h1, h2⟩ := nestJar_true_view jar ns out h
   refine ⟨table, h1, ?_, h2⟩
   intro c
   unfold jarName
   rw [h1]
   rfl
 
-/-- DEFECT witness: with `remap = true` (the way `src/main.rs` calls it) a synthesised enclosing class is stored under its
-bare class name, without `.class` (`remap_jar_entry_name_java` is handed a class name, finds no `.class` suffix and
-returns it unchanged) -/
-theorem created_entry_name_remap_witness :
+/-- a class that already carries the nested name of a listed class is replaced by it -/
+theorem remap_names_collision_witness :
+    let ns : Nests := [{ kind := .inner, className := jstr "X", enclClass := jstr "A", enclMethod := none, innerName := jstr "In", access := 0 }]
+    let jar : Jar := [(jstr "A.class", .cls (newClass 8 (jstr "A"))), (jstr "A$In.class", .cls (newClass 8 (jstr "A$In"))),
+                      (jstr "X.class", .cls (newClass 8 (jstr "X")))]
+    (match nestJar true jar ns with
+     | .ok out => out.map Prod.fst == [jstr "A.class", jstr "A$In.class"]
+     | .error _ => false) = true := by
+  decide
+
+/-- REGRESSION (fixed defect 8d867d6: the entry used to be `Out`, without `.class`): with `remap = true` a synthesised
+enclosing class is stored under `<name>.class`, like without renaming -/
+theorem created_entry_name_remap_regression :
     let ns : Nests := [{ kind := .inner, className := jstr "X", enclClass := jstr "Out", enclMethod := none, innerName := jstr "In", access := 0 }]
     let jar : Jar := [(jstr "X.class", .cls (newClass 8 (jstr "X")))]
     (match nestJar true jar ns with
-     | .ok out => out.map Prod.fst == [jstr "Out", jstr "Out$In.class"]
+     | .ok out => out.map Prod.fst == [jstr "Out.class", jstr "Out$In.class"]
      | .error _ => false) = true ∧
     (match nestJar false jar ns with
      | .ok out => out.map Prod.fst == [jstr "Out.class", jstr "X.class"]
